@@ -40,8 +40,10 @@ def build(tier):
                 take = [byshape[0], byshape[-1]] if len(byshape) > 1 else byshape
             for pi, pat in enumerate(take):
                 for api in ((0, 1) if tier == "thorough" else ((len(pat) + n1) % 2,)):
-                    nsteps = 3 + (len(pat) if api == 0 else 1) + 1
-                    for cut in range(0, nsteps + 1):
+                    nsteps = 3 + (len(pat) if api == 0 else 1) + 1 + 1      # +1: the callback registration step when a callback is used
+                    for cut in range(0, nsteps + 1):                        # cut == nsteps: nothing is cut, the whole cycle runs
+                        if tier == "quick" and 3 < cut < nsteps - 2 and (cut + pi) % 2:
+                            continue                                        # quick: every other mid-submission cut
                         for role in ((0, 1) if cut >= nsteps - 1 or tier == "thorough" else (0,)):
                             qs.append(ldpc_cycle("C08", cfg, pat, (1, 9)[pi % 2], api, 1, (1 + pi) % 3, EN, cb=(0, 1, 2, 3)[(cut + pi) % 4],
                                                  extra=dict(CUT=cut, ROLE_BOTH=role, BOTH_ENCODES=1), expect=False))
@@ -53,14 +55,15 @@ def build(tier):
             pats = [list(range(r, n)), [n - 1], [0] + list(range(k, n))]
         for pi, pat in enumerate(pats):
             for api in (0, 1):
-                nsteps = 3 + (len(pat) if api == 0 else 1) + 1
+                nsteps = 3 + (len(pat) if api == 0 else 1) + 1 + 1
                 for cut in range(0, nsteps + 1):
                     if codec == RS28 and tier == "quick" and (cut not in (2, nsteps) or pi != 0):
                         continue
-                    for role in ((0, 1) if cut >= nsteps - 1 else (0,)):
-                        if codec == RS28 and tier == "quick" and role == 0 and cut == nsteps:
+                    for role in ((0, 1) if cut >= nsteps - 2 else (0,)):
+                        if codec == RS28 and tier == "quick" and role == 0 and cut == nsteps and api == 1:
                             continue
-                        qs.append(rs_cycle("C08", codec, k, r, 3, m, pat, api, 1, pi % 2, EN, cb=(0, 1, 2)[(cut + pi) % 3],
+                        cbm = (0, 1, 2)[(cut + pi) % 3] if not (codec == RS28 and cut == nsteps) else (1, 3)[role]
+                        qs.append(rs_cycle("C08", codec, k, r, 3, m, pat, api, 1, pi % 2, EN, cb=cbm,
                                            data="one", extra=dict(CUT=cut, ROLE_BOTH=role, BOTH_ENCODES=1), timeout=900))
     meta = dict(
         units=["src/lib_common/of_openfec_api.c", "src/lib_stable/*/of_*_api.c", "it_decoding/of_it_decoding.c", "ml_decoding/*.c", "binary_matrix/of_matrix_{sparse,dense}.c", "galois_field_codes_utils/of_galois_field_code.c", "reed-solomon_gf_2_8/of_reed-solomon_gf_2_8.c"],
